@@ -136,4 +136,25 @@ After(d, s) ==
          [] s.op = "SetPerms"  -> [d EXCEPT !.perm = s.p]
          [] s.op = "ChangeUPW" -> [d EXCEPT !.upw = s.n, !.opw = IF s.o # "" THEN d.opw ELSE s.n]
          [] s.op = "ChangeOPW" -> [d EXCEPT !.opw = s.n]
+--------------------------------------------------------------------------
+(* Plaintext visibility (C23): location kinds of document text. *)
+Locs == {"info",        \* info dict strings (standard and custom key)
+         "content",     \* page content stream (unfiltered)
+         "flate",       \* page content stream, FlateDecode
+         "asciihex",    \* page content stream, ASCIIHexDecode
+         "annot",       \* annotation /Contents
+         "form",        \* form field /V and /DV
+         "names",       \* name tree key
+         "embfile",     \* embedded file stream data
+         "embname",     \* file specification /F /UF /Desc
+         "nested",      \* strings in nested arrays / dictionaries of private application data
+         "hexstr",      \* hex string in private application data
+         "streamdict",  \* string inside the dictionary of a stream
+         "outline",     \* bookmark title
+         "xmp",         \* XMP metadata stream
+         "sigwidget",   \* /Contents (alternate text) of the widget annotation of a signature field
+         "sigcontents"} \* /Contents of a signature dictionary: the signature value
+
+(* The only text allowed to be visible. *)
+Leaks(loc, alg, emd) == loc = "sigcontents" \/ (loc = "xmp" /\ ~emd)
 =============================================================================
